@@ -1,11 +1,21 @@
 #!/usr/bin/env python3
-"""Exploration only (see README.md).  usage: mk_diff.py <grammars.jsonl(valid only)> <outdir> <K bins> <maxlen>"""
-import json, os, sys, itertools
+"""Exploration only (see README.md).
+usage: mk_diff.py <grammars.jsonl (valid only)> <outdir> <K bins> <maxlen> [alphabet]
+env EXTRAS=1 adds the model-free / Spec-based checks for C10, C15, C18, C20 (slower to compile).
+
+Templates use @NAME@ placeholders (no f-strings: the payload is Rust full of braces)."""
+import json, os, re, sys
 
 src, out, K, L = sys.argv[1], sys.argv[2], int(sys.argv[3]), int(sys.argv[4])
 ALPHA = sys.argv[5] if len(sys.argv) > 5 else "ab c/"
+EXTRAS = os.environ.get("EXTRAS") == "1"
 gs = [json.loads(l) for l in open(src)]
 os.makedirs(out, exist_ok=True)
+
+def fill(t, **kw):
+    for k, v in kw.items():
+        t = t.replace("@" + k + "@", str(v))
+    return t
 
 COMMON = r'''
 use pest_typed::{ParsableTypedNode, iterators::{Pair, ThinToken}};
@@ -21,8 +31,18 @@ pub fn from_pest<R: pest::RuleType>(p: pest::iterators::Pair<'_, R>, atomic: &dy
     T(name, s, e, ch)
 }
 pub fn shift(t: &T, a: usize) -> T { T(t.0.clone(), t.1 + a, t.2 + a, t.3.iter().map(|c| shift(c, a)).collect()) }
+pub fn tok_to_t<R: pest_typed::RuleType>(t: &pest_typed::iterators::Token<'_, R>) -> T {
+    T(format!("{:?}", t.rule), t.span.start(), t.span.end(), t.children.iter().map(tok_to_t).collect())
+}
+pub fn dfs(t: &T, d: usize, out: &mut Vec<(String, usize, usize, usize)>) { out.push((t.0.clone(), t.1, t.2, d)); for c in &t.3 { dfs(c, d + 1, out); } }
+pub fn bfs(t: &T) -> Vec<(String, usize, usize)> { let mut lvl = vec![t]; let mut out = vec![]; while !lvl.is_empty() { let mut nx = vec![]; for n in lvl { out.push((n.0.clone(), n.1, n.2)); nx.extend(n.3.iter()); } lvl = nx; } out }
+pub fn render(t: &T, d: usize, input: &str, out: &mut String) {
+    if t.3.is_empty() { out.push_str(&format!("{}{} {:?}\n", "    ".repeat(d), t.0, &input[t.1..t.2])); }
+    else { out.push_str(&format!("{}{}\n", "    ".repeat(d), t.0)); for c in &t.3 { render(c, d + 1, input, out); } }
+}
+pub fn hash_of<H: std::hash::Hash>(h: &H) -> u64 { use std::hash::Hasher; let mut s = std::collections::hash_map::DefaultHasher::new(); h.hash(&mut s); s.finish() }
 pub const SPAN_MAXLEN: usize = 3;
-pub const ALPHA: [char; ALPHA_N] = ALPHA_V;
+pub const ALPHA: [char; @ALPHA_N@] = @ALPHA_V@;
 pub fn inputs(alpha: &[char], maxlen: usize) -> Vec<String> {
     let mut res = vec![String::new()];
     let mut frontier = vec![String::new()];
@@ -36,8 +56,212 @@ pub fn inputs(alpha: &[char], maxlen: usize) -> Vec<String> {
 }
 '''
 
-def esc(s):
-    return s
+MODS = r'''
+mod t@GID@ {
+    use pest_typed_derive::TypedParser;
+    #[derive(TypedParser)]
+    #[grammar_inline = r##"@TEXT@"##]
+    pub struct P;
+}
+mod p@GID@ {
+    #[derive(pest_derive::Parser)]
+    #[grammar_inline = r##"@TEXT@"##]
+    pub struct P;
+}
+'''
+MODS_EXTRA = r'''
+mod u@GID@ {
+    use pest_typed_derive::TypedParser;
+    #[derive(TypedParser)]
+    #[emit_rule_reference]
+    #[box_only_if_needed]
+    #[no_warnings]
+    #[do_not_emit_span]
+    #[grammar_inline = r##"@TEXT@"##]
+    pub struct P;
+}
+'''
+MOD_RAW = r'''
+mod v@GID@ {
+    use pest_typed_derive::TypedParser;
+    #[derive(TypedParser)]
+    #[pest_optimizer = false]
+    #[grammar_inline = r##"@TEXT@"##]
+    pub struct P;
+}
+'''
+
+RUN_HEAD = r'''
+fn run@GID@(ins: &[String]) -> Vec<String> {
+    use pest::Parser;
+    let mut out = vec![];
+    let atomic = |n: &str| -> bool { match n { @ATOMIC_ARMS@ _ => false } };
+    let (mut n_ok, mut n_err, mut n_panic, mut n_div) = (0usize, 0usize, 0usize, 0usize);
+    let spec = spec::Spec::new(r##"@TEXT@"##).unwrap();
+'''
+RUN_TAIL = r'''    out.push(format!("STAT g@GID@ ok={} err={} panic={} diverge={}", n_ok, n_err, n_panic, n_div));
+    out
+}
+'''
+
+RULE = r'''
+    for s in ins {
+        let typed = match t@GID@::rules::r#@RULE@::try_parse_partial(s.as_str()) {
+            Ok((cur, node)) => Some((pest_typed::Input::byte_offset(&cur), from_thin(&node.as_thin_token()))),
+            Err(_) => None,
+        };
+        // C03: check-only path vs parsing path (partial and full), model-free
+        let chk = t@GID@::rules::r#@RULE@::try_check_partial(s.as_str()).ok().map(|c| pest_typed::Input::byte_offset(&c));
+        if chk != typed.as_ref().map(|x| x.0) { out.push(format!("MISMATCH-C03 g@GID@ @RULE@ {:?} parse={:?} check={:?}", s, typed.as_ref().map(|x| x.0), chk)); }
+        let fp = t@GID@::rules::r#@RULE@::try_parse(s.as_str()).map(|_| ()).map_err(|e| e.to_string());
+        let fc = t@GID@::rules::r#@RULE@::try_check(s.as_str()).map_err(|e| e.to_string());
+        if fp != fc { out.push(format!("MISMATCH-C03FULL g@GID@ @RULE@ {:?} parse={:?} check={:?}", s, fp, fc)); }
+        // C08: every sub-span vs a fresh copy of the slice, model-free
+        if s.chars().count() <= SPAN_MAXLEN {
+            let bs: Vec<usize> = (0..=s.len()).filter(|i| s.is_char_boundary(*i)).collect();
+            for &a in &bs { for &b in bs.iter().filter(|b| **b >= a) {
+                let fresh: String = s[a..b].to_owned();
+                let rf = t@GID@::rules::r#@RULE@::try_parse_partial(fresh.as_str()).ok().map(|(c, n)| (pest_typed::Input::byte_offset(&c) + a, shift(&from_thin(&n.as_thin_token()), a)));
+                let rs = t@GID@::rules::r#@RULE@::try_parse_partial(pest_typed::Span::new(s.as_str(), a, b).unwrap()).ok().map(|(c, n)| (pest_typed::Input::byte_offset(&c), from_thin(&n.as_thin_token())));
+                if rf != rs { out.push(format!("MISMATCH-C08 g@GID@ @RULE@ {:?} {}..{} span={:?} fresh={:?}", s, a, b, rs.map(|x| x.0), rf.map(|x| x.0))); }
+                let ff = t@GID@::rules::r#@RULE@::try_parse(fresh.as_str()).is_ok();
+                let fs = t@GID@::rules::r#@RULE@::try_parse(pest_typed::Span::new(s.as_str(), a, b).unwrap()).is_ok();
+                if ff != fs { out.push(format!("MISMATCH-C08FULL g@GID@ @RULE@ {:?} {}..{} span={} fresh={}", s, a, b, fs, ff)); }
+            } }
+        }
+@EXTRA@
+        let s2 = s.clone();
+        let pestr = std::panic::catch_unwind(move || {
+            match p@GID@::P::parse(p@GID@::Rule::r#@RULE@, s2.as_str()) {
+                Ok(mut pairs) => { let p = pairs.next().unwrap(); let e = p.as_span().end(); Some((e, from_pest(p, &atomic))) }
+                Err(_) => None,
+            }
+        });
+        // Spec (reference PEG semantics, immutable stack) vs typed; Spec vs pest where pest returns
+        let specr = match spec.run("@RULE@", s.as_str(), 2_000_000) {
+            Ok(Some((e, toks))) => Some(Some((e, spec::nest(&toks, &atomic).into_iter().next().unwrap()))),
+            Ok(None) => Some(None),
+            Err(_) => None,
+        };
+        if let Some(sr) = &specr {
+            if sr.as_ref().map(|x| x.0) != typed.as_ref().map(|x| x.0) { out.push(format!("MISMATCH-SPEC-TYPED-OFFSET g@GID@ @RULE@ {:?} typed={:?} spec={:?}", s, typed.as_ref().map(|x| x.0), sr.as_ref().map(|x| x.0))); }
+            else if *sr != typed { out.push(format!("MISMATCH-SPEC-TYPED-TREE g@GID@ @RULE@ {:?}\n   typed={:?}\n   spec ={:?}", s, typed.as_ref().map(|x| &x.1), sr.as_ref().map(|x| &x.1))); }
+            if let Ok(pr) = &pestr {
+                if sr.as_ref().map(|x| x.0) != pr.as_ref().map(|x| x.0) { out.push(format!("MISMATCH-SPEC-PEST-OFFSET g@GID@ @RULE@ {:?} pest={:?} spec={:?}", s, pr.as_ref().map(|x| x.0), sr.as_ref().map(|x| x.0))); }
+                else if sr != pr { out.push(format!("MISMATCH-SPEC-PEST-TREE g@GID@ @RULE@ {:?}\n   pest={:?}\n   spec={:?}", s, pr.as_ref().map(|x| &x.1), sr.as_ref().map(|x| &x.1))); }
+            }
+        } else { n_div += 1; }
+        match pestr {
+            Err(_) => { n_panic += 1; }
+            Ok(pr) => {
+                if pr.is_some() { n_ok += 1 } else { n_err += 1 }
+                let tv = typed.as_ref().map(|x| x.0); let pv = pr.as_ref().map(|x| x.0);
+                if tv != pv { out.push(format!("MISMATCH-OFFSET g@GID@ @RULE@ {:?} typed={:?} pest={:?}", s, tv, pv)); }
+                else if typed != pr { out.push(format!("MISMATCH-TREE g@GID@ @RULE@ {:?}\n   typed={:?}\n   pest ={:?}", s, typed.map(|x| x.1), pr.map(|x| x.1))); }
+            }
+        }
+    }
+'''
+
+EXTRA_OPTS = r'''
+        // C20: the same grammar derived with other options must give the same verdict / offset / tree
+        {
+            let u = u@GID@::rules::r#@RULE@::try_parse_partial(s.as_str()).ok().map(|(c, n)| (pest_typed::Input::byte_offset(&c), from_thin(&n.as_thin_token())));
+            if u != typed { out.push(format!("MISMATCH-C20-OPTS g@GID@ @RULE@ {:?} default={:?} with_options={:?}", s, typed.as_ref().map(|x| x.0), u.as_ref().map(|x| x.0))); }
+        }
+'''
+EXTRA_RAW = r'''
+        {
+            let v = v@GID@::rules::r#@RULE@::try_parse_partial(s.as_str()).ok().map(|(c, n)| (pest_typed::Input::byte_offset(&c), from_thin(&n.as_thin_token())));
+            if v != typed { out.push(format!("MISMATCH-C20-RAW g@GID@ @RULE@ {:?} optimized={:?} raw={:?}", s, typed.as_ref().map(|x| x.0), v.as_ref().map(|x| x.0))); }
+        }
+'''
+EXTRA_ERR = r'''
+        // C10: error report of the full parse
+        {
+            use pest_typed::AsInput;
+            if let Err(e) = t@GID@::rules::r#@RULE@::try_parse(s.as_str()) {
+                let loc = match e.location { pest::error::InputLocation::Pos(p) => p, pest::error::InputLocation::Span((a, _)) => a };
+                if loc > s.len() || !s.is_char_boundary(loc) { out.push(format!("MISMATCH-C10-BOUNDS g@GID@ @RULE@ {:?} loc={}", s, loc)); }
+                if let Some((p, _)) = &typed { if loc < *p { out.push(format!("MISMATCH-C10-BEFORE-PREFIX g@GID@ @RULE@ {:?} loc={} prefix_end={}", s, loc, p)); } }
+                let e2 = t@GID@::rules::r#@RULE@::try_parse(s.as_str()).unwrap_err();
+                if e.to_string() != e2.to_string() { out.push(format!("MISMATCH-C10-NONDET g@GID@ @RULE@ {:?}", s)); }
+                if @STACKFREE@ {
+                    let i = s.as_str().as_input();
+                    let mut st = pest_typed::Stack::new();
+                    let mut tr = pest_typed::tracker::Tracker::<t@GID@::Rule>::new(i);
+                    let r = <t@GID@::rules::r#@RULE@ as pest_typed::ParsableTypedNode<'_, t@GID@::Rule>>::try_parse_with(i, &mut st, &mut tr);
+                    if r.is_none() {
+                        let (pos, attempts) = tr.finish();
+                        let p = pos.pos();
+                        for (_upper, (positives, negatives, _special)) in attempts {
+                            for r in positives {
+                                let name = format!("{:?}", r);
+                                let fails_somewhere = [spec::Atom::NonAtomic, spec::Atom::Atomic].iter().any(|a| matches!(spec.match_at(&name, s.as_str(), p, *a, 1_000_000), Ok(false) | Err(_)));
+                                if !fails_somewhere { out.push(format!("MISMATCH-C10-EXPECTED-BUT-MATCHES g@GID@ @RULE@ {:?} at {}: {}", s, p, name)); }
+                            }
+                            for r in negatives {
+                                let name = format!("{:?}", r);
+                                let matches_somewhere = [spec::Atom::NonAtomic, spec::Atom::Atomic].iter().any(|a| matches!(spec.match_at(&name, s.as_str(), p, *a, 1_000_000), Ok(true) | Err(_)));
+                                if !matches_somewhere { out.push(format!("MISMATCH-C10-UNEXPECTED-BUT-FAILS g@GID@ @RULE@ {:?} at {}: {}", s, p, name)); }
+                            }
+                        }
+                    }
+                }
+            }
+        }
+'''
+EXTRA_TREE = r'''
+        // C15: traversal helpers vs plain recursion over as_token()
+        if let Ok((_, node)) = t@GID@::rules::r#@RULE@::try_parse_partial(s.as_str()) {
+            use pest_typed::iterators::PairTree;
+            let root = tok_to_t(&node.as_token());
+            if root != from_thin(&node.as_thin_token()) { out.push(format!("MISMATCH-C15-THIN g@GID@ @RULE@ {:?}", s)); }
+            let mut exp = vec![]; dfs(&root, 0, &mut exp);
+            let mut got = vec![]; let _ = node.iterate_pre_order(|t, d| { got.push((format!("{:?}", t.rule), t.span.start(), t.span.end(), d)); Ok::<(), ()>(()) });
+            if exp != got { out.push(format!("MISMATCH-C15-PREORDER g@GID@ @RULE@ {:?} exp={:?} got={:?}", s, exp, got)); }
+            let mut gotl = vec![]; let _ = node.iterate_level_order(|t, _| { gotl.push((format!("{:?}", t.rule), t.span.start(), t.span.end())); Ok::<(), ()>(()) });
+            if bfs(&root) != gotl { out.push(format!("MISMATCH-C15-LEVEL g@GID@ @RULE@ {:?} exp={:?} got={:?}", s, bfs(&root), gotl)); }
+            let mut r = String::new(); render(&root, 0, s.as_str(), &mut r);
+            if node.format_as_tree().unwrap() != r { out.push(format!("MISMATCH-C15-FORMAT g@GID@ @RULE@ {:?}\n{}\n---\n{}", s, node.format_as_tree().unwrap(), r)); }
+        }
+'''
+EXTRA_EQ = r'''
+        // C18: eq / hash / clone / Debug over all sub-ranges of one input object
+        if s.chars().count() <= SPAN_MAXLEN {
+            let bs: Vec<usize> = (0..=s.len()).filter(|i| s.is_char_boundary(*i)).collect();
+            let mut res = vec![];
+            for &a in &bs { for &b in bs.iter().filter(|b| **b >= a) {
+                if let Ok(n) = t@GID@::rules::r#@RULE@::try_parse(pest_typed::Span::new(s.as_str(), a, b).unwrap()) { res.push((format!("{:?}", n), hash_of(&n), n)); }
+            } }
+            for x in &res {
+                if x.2.clone() != x.2 || hash_of(&x.2.clone()) != x.1 { out.push(format!("MISMATCH-C18-CLONE g@GID@ @RULE@ {:?}", s)); }
+                for y in &res {
+                    let eq = x.2 == y.2;
+                    if eq != (x.0 == y.0) { out.push(format!("MISMATCH-C18-EQ-VS-DEBUG g@GID@ @RULE@ {:?} eq={}\n  {}\n  {}", s, eq, x.0, y.0)); }
+                    if eq && x.1 != y.1 { out.push(format!("MISMATCH-C18-HASH g@GID@ @RULE@ {:?}", s)); }
+                }
+            }
+        }
+'''
+
+MAIN = r'''
+fn main() {
+    std::panic::set_hook(Box::new(|_| {}));
+    let ins = inputs(&ALPHA, @L@);
+    let jobs: Vec<(usize, fn(&[String]) -> Vec<String>)> = vec![@JOBS@];
+    for (gid, f) in jobs {
+        let (tx, rx) = std::sync::mpsc::channel();
+        let ins2 = ins.clone();
+        std::thread::Builder::new().stack_size(64 << 20).spawn(move || { let r = f(&ins2); let _ = tx.send(r); }).unwrap();
+        match rx.recv_timeout(std::time::Duration::from_secs(30)) {
+            Ok(lines) => { for l in lines.iter().take(12) { println!("{}", l); } if lines.len() > 12 { println!("... g{}: {} more lines", gid, lines.len() - 12); } }
+            Err(_) => println!("TIMEOUT g{}", gid),
+        }
+    }
+    std::process::exit(0);
+}
+'''
 
 bins = [[] for _ in range(K)]
 for i, g in enumerate(gs):
@@ -45,7 +269,8 @@ for i, g in enumerate(gs):
 
 members = []
 for b, glist in enumerate(bins):
-    if not glist: continue
+    if not glist:
+        continue
     d = os.path.join(out, f"b{b}")
     os.makedirs(os.path.join(d, "src"), exist_ok=True)
     members.append(f"b{b}")
@@ -61,108 +286,35 @@ pest = "=2.7.14"
 pest_derive = "=2.7.14"
 pest_meta = "=2.7.14"
 ''')
-    code = ["#![allow(warnings)]", COMMON.replace("ALPHA_N", str(len(ALPHA))).replace("ALPHA_V", "[" + ", ".join("'\\u{%x}'" % ord(c) for c in ALPHA) + "]")]
+    alpha_v = "[" + ", ".join("'\\u{%x}'" % ord(c) for c in ALPHA) + "]"
+    code = ["#![allow(warnings)]", fill(COMMON, ALPHA_N=len(ALPHA), ALPHA_V=alpha_v)]
     for g in glist:
-        gid = g["id"]
-        code.append(f'''
-mod t{gid} {{
-    use pest_typed_derive::TypedParser;
-    #[derive(TypedParser)]
-    #[grammar_inline = r##"{g["text"]}"##]
-    pub struct P;
-}}
-mod p{gid} {{
-    #[derive(pest_derive::Parser)]
-    #[grammar_inline = r##"{g["text"]}"##]
-    pub struct P;
-}}
-fn run{gid}(ins: &[String]) -> Vec<String> {{
-    use pest::Parser;
-    let mut out = vec![];
-    let atomic = |n: &str| -> bool {{ match n {{ {" ".join(f'"{n}" => true,' for n,k in g["kinds"].items() if k in ("@","$"))} _ => false }} }};
-    let (mut n_ok, mut n_err, mut n_panic, mut n_div) = (0usize, 0usize, 0usize, 0usize);
-    let spec = spec::Spec::new(r##"{g["text"]}"##).unwrap();
-''')
+        gid, text = g["id"], g["text"]
+        has_counted = re.search(r"\)\{", text) is not None
+        stackfree = "true" if not re.search(r"PUSH|PEEK|POP|DROP", text) else "false"
+        code.append(fill(MODS, GID=gid, TEXT=text))
+        if EXTRAS:
+            code.append(fill(MODS_EXTRA, GID=gid, TEXT=text))
+            if not has_counted:      # F-OPT-2: counted repetition does not compile with pest_optimizer = false
+                code.append(fill(MOD_RAW, GID=gid, TEXT=text))
+        arms = " ".join(f'"{n}" => true,' for n, k in g["kinds"].items() if k in ("@", "$"))
+        code.append(fill(RUN_HEAD, GID=gid, TEXT=text, ATOMIC_ARMS=arms))
         for rule, kind in g["kinds"].items():
-            if kind == "_": continue
-            code.append(f'''
-    for s in ins {{
-        let typed = match t{gid}::rules::r#{rule}::try_parse_partial(s.as_str()) {{
-            Ok((cur, node)) => Some((pest_typed::Input::byte_offset(&cur), from_thin(&node.as_thin_token()))),
-            Err(_) => None,
-        }};
-        // C03: check-only path vs parsing path (partial and full), model-free
-        let chk = t{gid}::rules::r#{rule}::try_check_partial(s.as_str()).ok().map(|c| pest_typed::Input::byte_offset(&c));
-        if chk != typed.as_ref().map(|x| x.0) {{ out.push(format!("MISMATCH-C03 g{gid} {rule} {{:?}} parse={{:?}} check={{:?}}", s, typed.as_ref().map(|x| x.0), chk)); }}
-        let fp = t{gid}::rules::r#{rule}::try_parse(s.as_str()).map(|_| ()).map_err(|e| e.to_string());
-        let fc = t{gid}::rules::r#{rule}::try_check(s.as_str()).map_err(|e| e.to_string());
-        if fp != fc {{ out.push(format!("MISMATCH-C03FULL g{gid} {rule} {{:?}} parse={{:?}} check={{:?}}", s, fp, fc)); }}
-        // C08: every sub-span / position vs a fresh copy of the slice, model-free
-        if s.chars().count() <= SPAN_MAXLEN {{
-            let bs: Vec<usize> = (0..=s.len()).filter(|i| s.is_char_boundary(*i)).collect();
-            for &a in &bs {{ for &b in bs.iter().filter(|b| **b >= a) {{
-                let fresh: String = s[a..b].to_owned();
-                let rf = t{gid}::rules::r#{rule}::try_parse_partial(fresh.as_str()).ok().map(|(c, n)| (pest_typed::Input::byte_offset(&c) + a, shift(&from_thin(&n.as_thin_token()), a)));
-                let rs = t{gid}::rules::r#{rule}::try_parse_partial(pest_typed::Span::new(s.as_str(), a, b).unwrap()).ok().map(|(c, n)| (pest_typed::Input::byte_offset(&c), from_thin(&n.as_thin_token())));
-                if rf != rs {{ out.push(format!("MISMATCH-C08 g{gid} {rule} {{:?}} {{}}..{{}} span={{:?}} fresh={{:?}}", s, a, b, rs.map(|x| x.0), rf.map(|x| x.0))); }}
-                let ff = t{gid}::rules::r#{rule}::try_parse(fresh.as_str()).is_ok();
-                let fs = t{gid}::rules::r#{rule}::try_parse(pest_typed::Span::new(s.as_str(), a, b).unwrap()).is_ok();
-                if ff != fs {{ out.push(format!("MISMATCH-C08FULL g{gid} {rule} {{:?}} {{}}..{{}} span={{}} fresh={{}}", s, a, b, fs, ff)); }}
-            }} }}
-        }}
-        let s2 = s.clone();
-        let pestr = std::panic::catch_unwind(move || {{
-            match p{gid}::P::parse(p{gid}::Rule::r#{rule}, s2.as_str()) {{
-                Ok(mut pairs) => {{ let p = pairs.next().unwrap(); let e = p.as_span().end(); Some((e, from_pest(p, &atomic))) }}
-                Err(_) => None,
-            }}
-        }});
-        // Spec (reference PEG semantics, immutable stack) vs typed; Spec vs pest where pest returns
-        let specr = match spec.run("{rule}", s.as_str(), 2_000_000) {{
-            Ok(Some((e, toks))) => Some(Some((e, spec::nest(&toks, &atomic).into_iter().next().unwrap()))),
-            Ok(None) => Some(None),
-            Err(_) => None,
-        }};
-        if let Some(sr) = &specr {{
-            if sr.as_ref().map(|x| x.0) != typed.as_ref().map(|x| x.0) {{ out.push(format!("MISMATCH-SPEC-TYPED-OFFSET g{gid} {rule} {{:?}} typed={{:?}} spec={{:?}}", s, typed.as_ref().map(|x| x.0), sr.as_ref().map(|x| x.0))); }}
-            else if *sr != typed {{ out.push(format!("MISMATCH-SPEC-TYPED-TREE g{gid} {rule} {{:?}}\n   typed={{:?}}\n   spec ={{:?}}", s, typed.as_ref().map(|x| &x.1), sr.as_ref().map(|x| &x.1))); }}
-            if let Ok(pr) = &pestr {{
-                if sr.as_ref().map(|x| x.0) != pr.as_ref().map(|x| x.0) {{ out.push(format!("MISMATCH-SPEC-PEST-OFFSET g{gid} {rule} {{:?}} pest={{:?}} spec={{:?}}", s, pr.as_ref().map(|x| x.0), sr.as_ref().map(|x| x.0))); }}
-                else if sr != pr {{ out.push(format!("MISMATCH-SPEC-PEST-TREE g{gid} {rule} {{:?}}\n   pest={{:?}}\n   spec={{:?}}", s, pr.as_ref().map(|x| &x.1), sr.as_ref().map(|x| &x.1))); }}
-            }}
-        }} else {{ n_div += 1; }}
-        match pestr {{
-            Err(_) => {{ n_panic += 1; }}
-            Ok(pr) => {{
-                if pr.is_some() {{ n_ok += 1 }} else {{ n_err += 1 }}
-                let tv = typed.as_ref().map(|x| x.0); let pv = pr.as_ref().map(|x| x.0);
-                if tv != pv {{ out.push(format!("MISMATCH-OFFSET g{gid} {rule} {{:?}} typed={{:?}} pest={{:?}}", s, tv, pv)); }}
-                else if typed != pr {{ out.push(format!("MISMATCH-TREE g{gid} {rule} {{:?}}\\n   typed={{:?}}\\n   pest ={{:?}}", s, typed.map(|x| x.1), pr.map(|x| x.1))); }}
-            }}
-        }}
-    }}
-''')
-        code.append(f'''    out.push(format!("STAT g{gid} ok={{}} err={{}} panic={{}} diverge={{}}", n_ok, n_err, n_panic, n_div));
-    out
-}}
-''')
-    code.append(f'''
-fn main() {{
-    std::panic::set_hook(Box::new(|_| {{}}));
-    let ins = inputs(&ALPHA, {L});
-    let jobs: Vec<(usize, fn(&[String]) -> Vec<String>)> = vec![{", ".join(f"({g['id']}, run{g['id']} as fn(&[String]) -> Vec<String>)" for g in glist)}];
-    for (gid, f) in jobs {{
-        let (tx, rx) = std::sync::mpsc::channel();
-        let ins2 = ins.clone();
-        std::thread::Builder::new().stack_size(64 << 20).spawn(move || {{ let r = f(&ins2); let _ = tx.send(r); }}).unwrap();
-        match rx.recv_timeout(std::time::Duration::from_secs(20)) {{
-            Ok(lines) => {{ for l in lines.iter().take(12) {{ println!("{{}}", l); }} if lines.len() > 12 {{ println!("... g{{}}: {{}} more lines", gid, lines.len() - 12); }} }}
-            Err(_) => println!("TIMEOUT g{{}}", gid),
-        }}
-    }}
-    std::process::exit(0);
-}}
-''')
+            if kind == "_":
+                continue
+            extra = ""
+            if EXTRAS:
+                extra += EXTRA_OPTS
+                if not has_counted:
+                    extra += EXTRA_RAW
+                extra += EXTRA_ERR
+                if kind != "@":
+                    extra += EXTRA_TREE
+                extra += EXTRA_EQ
+            code.append(fill(fill(RULE, EXTRA=extra), GID=gid, RULE=rule, STACKFREE=stackfree))
+        code.append(fill(RUN_TAIL, GID=gid))
+    jobs = ", ".join(f"({g['id']}, run{g['id']} as fn(&[String]) -> Vec<String>)" for g in glist)
+    code.append(fill(MAIN, L=L, JOBS=jobs))
     open(os.path.join(d, "src", "main.rs"), "w").write("\n".join(code))
 
 with open(os.path.join(out, "Cargo.toml"), "w") as f:
